@@ -47,7 +47,7 @@ func moreProps(m map[string]*propCfg) {
 		Rule:      "generated components with configuration fields from a fixed menu (placeholder, placeholder with default, prop shorthand, #{${a}+${b}}, #{${a}*${b}}, prefix-bound int/struct, literal), each optionally with a validate constraint from a fixed menu, next to user instantiation-aware processors of all order classes; the arrival order of all processors at the unstable sorter is permuted by the schedule. Non-trivial = the program has an expression or a validated field; distinct = distinct (program shape, registry path signature).",
 		Assumes:   []string{"the value x constraint space is the menu's (small integers, identifiers, min/max/gte/required/eq/ne); the biconditional over arbitrary values and expressions is input generation, outside this technique"},
 		Technique: "deterministic simulation (startsim, configuration slice): schedule permutes the arrival order of built-in and user processors at the sorter; oracle: small menu evaluator (placeholder -> expression -> bind -> validate)"})
-	add(&propCfg{ID: "C09", Engine: "startsim", Level: "fault_enumeration", Families: []famShare{{gen.FamWire, 0.25}, {gen.FamLife, 0.3}, {gen.FamConfig, 0.2}, {gen.FamCfgMerge, 0.1}, {gen.FamEmbed, 0.1}, {gen.FamWrapName, 0.05}}, QProgs: 240, QK: 3, TProgs: 400, TK: 4,
+	add(&propCfg{ID: "C09", Engine: "startsim", Level: "fault_enumeration", Families: []famShare{{gen.FamWire, 0.22}, {gen.FamLife, 0.25}, {gen.FamConfig, 0.2}, {gen.FamCfgMerge, 0.1}, {gen.FamEmbed, 0.08}, {gen.FamWrapName, 0.05}, {gen.FamSubst, 0.1}}, QProgs: 240, QK: 3, TProgs: 400, TK: 4,
 		Params: map[string]float64{"faultSchedules": 2, "faultPairs": 4}, TParams: map[string]float64{"faultSchedules": 3, "faultPairs": 12},
 		Rule: "per program and per explored schedule every callback site discovered by the fault-free run (Init, AfterPropertiesSet, each post-processor callback for each component incl. the container's own, runners excluded) is made to fail singly (exhaustive), plus sampled pairs; programs with unsatisfiable required / optional points are judged by the start-outcome model. Non-trivial = a fault fired or the model says must-fail; distinct = distinct (program shape, registry path signature, fault set)."})
 	add(&propCfg{ID: "C04", Engine: "startsim", Level: "fault_enumeration", Families: []famShare{{gen.FamWire, 0.45}, {gen.FamLife, 0.35}, {gen.FamSubst, 0.2}}, QProgs: 160, QK: 3, TProgs: 300, TK: 4,
